@@ -11,15 +11,19 @@ import (
 
 // mux is the source installed for the whole run: a Read is served by the
 // device of the task that holds the token.
-type mux struct{ devs []*dev.Dev }
+type mux struct {
+	devs []*dev.Dev
+	idle *dev.Safe
+}
 
 func (m *mux) Read(p []byte) (int, error) {
-	if !zzsimrt.IsTask() { // a goroutine of the library's own: served by an unscripted device of its own
-		return len(p), nil
+	if !zzsimrt.IsTask() { // a goroutine of the library's own: served by an unscripted, goroutine-safe device
+		return m.idle.Read(p)
 	}
 	return m.devs[zzsimrt.Cur()].Read(p)
 }
 
 func main() {
-	schedcore.Main(func(devs []*dev.Dev) { bip39.VerifSwapSource(&mux{devs: devs}) })
+	idle := dev.NewSafe()
+	schedcore.Main(func(devs []*dev.Dev) { bip39.VerifSwapSource(&mux{devs: devs, idle: idle}) }, idle)
 }
